@@ -20,7 +20,8 @@ import (
 // watched directories (inotify).
 //
 // states: ok | missing | dir (the source is a directory) | dirfull (a non-empty directory) |
-//         blocked (the destination name is occupied by a non-empty directory)
+//         blocked (the destination name is occupied by a non-empty directory) |
+//         occupied (the destination already holds a longer regular file of that name)
 func init() {
 	ops["upload"] = func(a []string) string {
 		kind, op, ctlname, ctlstate := arg(a, 0), arg(a, 1), arg(a, 2), arg(a, 3)
@@ -56,6 +57,10 @@ func init() {
 				ioutil.WriteFile(p, []byte(content), 0644)
 				os.MkdirAll(filepath.Join(dst, name), 0755)
 				ioutil.WriteFile(filepath.Join(dst, name, "x"), []byte("x"), 0644)
+			case "occupied":
+				// the destination already holds a LONGER regular file of that name: it must be replaced, not patched
+				ioutil.WriteFile(p, []byte(content), 0644)
+				ioutil.WriteFile(filepath.Join(dst, name), []byte(content+strings.Repeat("Z", 250)), 0600)
 			}
 		}
 		var listing strings.Builder
@@ -139,6 +144,8 @@ func init() {
 		case "blocked":
 			os.MkdirAll(filepath.Join(dst, ctlname), 0755)
 			ioutil.WriteFile(filepath.Join(dst, ctlname, "x"), []byte("x"), 0644)
+		case "occupied":
+			ioutil.WriteFile(filepath.Join(dst, ctlname), []byte(text+strings.Repeat("Z", 250)), 0600)
 		}
 		// watch both directories
 		fd, err := syscall.InotifyInit()
